@@ -557,12 +557,14 @@ static Result check_grid(const J &c)
               for (size_t k = 0; k < l3.size(); ++k) if (!close_rel(l3[k], lib[k], 1e-4, 1e-9)) ambiguous = true;
             }
           // no reference lattice for the tangential position (sphere): the answer must not hinge on the last printed digit of it
-          if (match[i] < 0)
-            for (int ax = 0; ax < 3; ++ax)
+          // ... and for lattice nodes not on the last bit of the node position: the tool computes its nodes with its own arithmetic
+          // (radians accumulated from the bounds), so a node that sits exactly on a polygon edge (grid bounds and polygon corners
+          // share the 0.25 degree lattice) may fall on the other side there
+          for (int ax = 0; ax < 3; ++ax)
               for (double d : {-1.0, 1.0})
                 {
                   Node q = n;
-                  (ax == 0 ? q.x : ax == 1 ? q.y : q.z) += d * 1e-5 * z_max;
+                  (ax == 0 ? q.x : ax == 1 ? q.y : q.z) += d * (match[i] < 0 ? 1e-5 : 1e-9) * z_max;
                   const std::vector<double> l4 = eval(q);
                   for (size_t k = 0; k < l4.size(); ++k) if (!close_rel(l4[k], lib[k], 1e-5, 1e-9)) ambiguous = true;
                 }
